@@ -54,6 +54,7 @@ pub fn entries() -> Vec<Entry> {
         Entry { id: "C12", rule: "ConcurrentImmix programs sized to cross the concurrent trigger, overwriting references of snapshot objects / region copies / new allocations during marking; oracle = shadow walk after every pause + survivors of snapshot; non-trivial = >=1 pointer overwrite while concurrent marking was in progress and >=2 pauses", run: c12 },
         Entry { id: "C13", rule: "programs with VM-side ephemeron tables incl. dependency chains of depth 0..6; oracle = is_reachable of the model's retained set at the first process_weak_refs call, closure of values traced in round j reachable at round j+1, true => another call / false => none, forward_weak_refs exactly when the plan needs it; non-trivial = >=3 rounds in one GC", run: c13 },
         Entry { id: "C16", rule: "histories of GCs and fork cycles (prepare_to_fork, join every worker thread, after_fork) x 1-4 workers; oracle = every worker exits exactly once, after_fork spawns N workers with ordinals 0..N-1, later GCs satisfy the shadow walk; non-trivial = >=2 fork cycles with GCs in between", run: c16 },
+        Entry { id: "C24", rule: "complete enumeration of 11 plans x 4 ShadowVM metadata layouts (all-side, forwarding-in-header, header-heavy, permuted declaration order) x 2 feature builds (vo_bit / base), each instantiated in its own process; oracle: the address ranges [start, start + 2^(47 - log_region + log_bits - 3)) of all distinct side specs of all spaces are pairwise disjoint and inside the reserved range, and for 500+ heap addresses no two tables keep the field in the same byte; non-trivial = configuration with >= 2 VM side specs (every layout except header-heavy has >= 4)", run: c24 },
         Entry { id: "C31", rule: "address probes (0, heap/space edges +-8, 2^47, usize::MAX, 2000 uniform in-heap, 200 uniform 48-bit, object starts/ends) per plan after generated allocation/GC activity; oracle = object addresses resolve to their space, outside-heap addresses resolve to the empty SFT and are not in MMTk spaces, SFT non-empty => VM map descriptor is that space's; non-trivial = >=1 probe within 4 MiB of a heap edge", run: c31 },
         Entry { id: "C34", rule: "Immix-family programs with many GCs (nursery/full/defrag mixes, straddling objects); after every marking pause every hole get_next_available_lines yields for every allocated block is disjoint from lines overlapped by shadow-live objects; block-state byte round trip for all 256 bytes; non-trivial = >=1 live object straddling >=3 lines in a space with holes", run: c34 },
     ]
@@ -213,6 +214,32 @@ fn c14(c: &mut Check) {
     });
 }
 
+fn c24(c: &mut Check) {
+    c.level = "other";
+    c.extra("explanation", serde_json::json!("complete enumeration of a finite space (see coverage.rule and coverage.exhaustive); every element is evaluated against the real code, nothing is sampled"));
+    c.extra("exhaustive", serde_json::json!(true));
+    let known = known_list();
+    let mut cfgs: Vec<Case> = vec![];
+    for plan in PLANS.iter() {
+        for variant in 0u8..4 {
+            if *plan == "Compressor" && variant >= 2 {
+                continue; // the Compressor asserts UNIFIED_OBJECT_REFERENCE_ADDRESS
+            }
+            for base in [false, true] {
+                let mut opts = vec![];
+                if base {
+                    opts.push(("__build".to_string(), "base".to_string()));
+                }
+                cfgs.push(Case { plan: plan.to_string(), variant, heap_kb: 16000, dyn_heap: None, workers: 1, mutators: 1, opts, copy_spin: 0, focus: "C24".into(), ops: vec![Op::CheckSideSpecs { seed: c.seed as u32 ^ 0x5bd1e995 }] });
+            }
+        }
+    }
+    c.enumerate("plan-x-layout-x-build", cfgs, |case: &Case| {
+        let res = run_case(case, TIMEOUT_S);
+        outcome_for_case(case, "C24", &[], res, &known, &|v| (cv(v, "c24_checked") > 0 && cv(v, "c24_specs") >= 2, vec![]))
+    });
+}
+
 fn c15(c: &mut Check) {
     let n = c.tier.pick(1400, 60000);
     run_e1(c, "bucket-order-and-packets", n, "C15", &[], || gen::case(&PLANS, Mix { gc_weight: 12, churn_weight: 2, weak: true, finalizers: true, ephemerons: true, ..Mix::BASIC }, "C15", 80), |v| {
@@ -317,6 +344,15 @@ fn replay_saved_inputs(c: &mut Check, property: &'static str, also: &'static [&'
         }
         c.record_replay(&rel, last.unwrap(), &f.to_string_lossy());
     }
+}
+
+/// C28 (system part): page counters of every space of a real instance at the end of generated programs
+/// (committed <= reserved, no underflow); the saved input of the listed Compressor finding is replayed.
+pub fn c28_system(c: &mut Check) {
+    let n = c.tier.pick(300, 20000);
+    const P: [&str; 9] = ["SemiSpace", "GenCopy", "GenImmix", "MarkSweep", "PageProtect", "Immix", "MarkCompact", "StickyImmix", "ConcurrentImmix"];
+    replay_saved_inputs(c, "C28", &[], |v| (cv(v, "gc") > 0, vec![]));
+    run_e1_named(c, "system-page-counters", n, "C28", &[], || gen::case(&P, Mix { gc_weight: 10, churn_weight: 4, ..Mix::BASIC }, "C28", 60), |v| (cv(v, "gc") >= 2, vec![]));
 }
 
 /// C35 (system part): cells of a fresh MarkSweep block, one size class per case.
